@@ -52,10 +52,12 @@ func (st *SplitTracker) TrackAssigned(shards []SourceSplitterShard) {
 
 	for _, shard := range shards {
 		st.assignedSplits[shard.ShardID] = struct{}{}
-	}
 
-	if len(shards) > 0 {
-		st.LastAssignedSplitID = shards[len(shards)-1].ShardID
+		// The ID is the cursor for discovering newer shards and must not move
+		// backwards when children of an older shard are assigned late.
+		if shard.ShardID > st.LastAssignedSplitID {
+			st.LastAssignedSplitID = shard.ShardID
+		}
 	}
 }
 
